@@ -590,3 +590,33 @@ def rule_truncating_update_normalised(ctx):
                       f"`{src_of(splits[0])[:50]}...` truncates without renormalising and the norm is only divided out for periodic systems: after a truncating update the "
                       "recorded energy is <psi|H|psi> of a state with <psi|psi> < 1", where=where, operand="renorm"))
     return r
+
+
+def rule_onesite_cap_enforced(ctx):
+    r = RuleResult(
+        "onesite-cap-enforced",
+        "the one-site update never changes a bond dimension: DMRG.solve therefore has to impose the sweep's cap itself for bsz == 1 — next to "
+        "the explicit expansion (bonds below the cap) there is a truncating call on the state that receives the cap, guarded by a comparison "
+        "of the present bond sizes with it; otherwise a decreasing schedule or a large initial state leaves bonds above the requested cap",
+    )
+    f = ctx.prog.func("quimb.tensor.tn1d.dmrg", "DMRG.solve")
+    if f is None:
+        raise AnalysisError("onesite-cap-enforced: DMRG.solve not found")
+    blocks = [st for st in ast.walk(f.node) if isinstance(st, ast.If) and any(isinstance(y, ast.Attribute) and y.attr == "bsz" for y in ast.walk(st.test))]
+    if not blocks:
+        raise AnalysisError("onesite-cap-enforced: no branch on self.bsz in DMRG.solve")
+    where = f"{f.module.relpath}:{blocks[0].lineno}"
+    ok = False
+    for b in blocks:
+        for st in ast.walk(b):
+            if isinstance(st, ast.If) and any(isinstance(c, ast.Compare) and isinstance(c.ops[0], (ast.Gt, ast.GtE, ast.Lt, ast.LtE)) and any(isinstance(y, ast.Name) and y.id == "max_bond" for y in ast.walk(c))
+                                              and any(isinstance(y, ast.Call) and isinstance(y.func, ast.Name) and y.func.id == "max" for y in ast.walk(c)) for c in ast.walk(st.test)):
+                for c in ast.walk(st):
+                    if isinstance(c, ast.Call) and isinstance(c.func, ast.Attribute) and "compress" in c.func.attr and any(k.arg == "max_bond" and any(isinstance(y, ast.Name) and y.id == "max_bond" for y in ast.walk(k.value)) for k in c.keywords):
+                        ok = True
+    if ok:
+        r.ok("DMRG.solve[bsz == 1]", sample={"cap": "bonds above max_bond are truncated before the sweep"})
+    else:
+        r.bad(Finding("onesite-cap-enforced", "DMRG.solve", "for the one-site algorithm bonds are only ever expanded towards the cap, never truncated to it: the returned state can exceed the requested bond dimension",
+                      where=where, operand="truncate"))
+    return r
